@@ -134,12 +134,12 @@ check("C05", "PVM",
       shards=(8, 16), floors={"any": {"loads_completed": 3000, "stores_completed": 5000, "faulting_accesses_load": 1000, "faulting_accesses_store": 3000, "cross_page_accesses_completed": 50, "sbrk_grown": 2000, "sbrk_refused": 2000, "inner_page_maps": 3000, "inner_page_maps_with_withdrawn_pages": 1500}})
 
 check("C03", "PVM",
-      rule="case = one untrusted byte string derived from a valid program (compiler-like / hostile blob, standard-program wrapper) by one or two of {none, truncation, bit flips, natural-number field := boundary value, 32-bit length field := boundary value, random bytes, garbage suffix, byte := 00/FF}, plus EVERY truncation of a few valid blobs, "
+      rule="case = one untrusted byte string derived from a valid program (compiler-like / hostile blob, standard-program wrapper) by one or two of {none, truncation, bit flips, natural-number field := boundary value, 32-bit length field := boundary value, random bytes, garbage suffix, byte := 00/FF}, plus EVERY truncation of a few valid blobs, plus well-formed programs started on both engines directly from arbitrary boundary-biased register contents and memory maps (what `invoke` hands to an inner machine; finds host-language faults that depend on operand values), "
            "fed to DeBlobProgramCode, SingleInitializer, Psi_M, Psi_A (code as service preimage, with and without metadata prefix), RefineInvoke (code through historical lookup) and machine+invoke (blob in guest memory), gas <= 10^4. Input is logged to disk before each call; monitors: recover()/process death, TotalAlloc delta <= 64 MiB + 8 x (len + sizes the blob declares), return within 60 s. distinct_nontrivial = distinct (target, bytes)",
       technique="crash / allocation / progress monitors over mutated program blobs in isolated child processes (input logged before every call) + Go native coverage-guided fuzzing of the same entry points with a panic monitor",
       level_text="Every call on untrusted bytes is watched for Go panics, process death, allocation beyond the declared bound and non-termination; held = none observed on what was explored (open finding C03-F2 is re-confirmed by a dedicated trigger case).",
       note="The 60 s bound is the only wall-clock verdict (10^4 instructions take microseconds). Psi_I is not driven (fixed 50M gas). The structured generator is seeded by VERIF_SEED; the native-fuzz part (Go's coverage-guided fuzzer over the same six targets, seeded with valid programs, bounded by an execution count: 25 000 quick, 3 000 000 thorough) is not seedable and its executions differ from run to run — its oracle (no Go panic) does not.",
-      shards=(8, 16), floors={"any": {"calls_DeBlobProgramCode": 3000, "calls_Psi_M": 3000, "calls_Psi_A": 3000, "calls_RefineInvoke": 3000, "calls_machine+invoke": 3000, "calls_SingleInitializer": 3000, "native_fuzz_execs": 20000}},
+      shards=(8, 16), floors={"any": {"calls_DeBlobProgramCode": 3000, "calls_Psi_M": 3000, "calls_Psi_A": 3000, "calls_RefineInvoke": 3000, "calls_machine+invoke": 3000, "calls_SingleInitializer": 3000, "native_fuzz_execs": 20000, "runs_from_arbitrary_registers_block-engine": 8000, "runs_from_arbitrary_registers_step-engine": 8000}},
       extra_parts=[{"name": "nativefuzz", "pkg": "PVM", "fuzz": "FuzzVerifC03", "fuzz_execs": {"quick": 25000, "thorough": 3000000}, "timeout": {"quick": 600, "thorough": 7200}}],
       timeout=(1200, 7200))
 
@@ -148,7 +148,7 @@ check("C06", "PVM",
       technique="reference-model monitor (GP A.7 layout model) over a size grid",
       level_text="The complete page map produced by the initialiser is compared with an independent layout model on a boundary-biased size grid. Held = no divergence on what was explored.",
       note="Layouts above 2^32 are unreachable with the 3-byte length fields (U5); trailing bytes after the code are not judged (U13).",
-      shards=(8, 16), floors={"any": {"layouts": 2000, "layouts_arg_ge_one_page": 500, "prefixes_rejected": 2000}})
+      shards=(8, 16), floors={"any": {"layouts": 2000, "layouts_arg_ge_one_page": 500, "prefixes_rejected": 2000, "layouts_with_an_argument_of_about_the_input_zone_size": 10}})
 
 HC_NOTE = ("Host calls are invoked through the real omega tables (AccumulateOmegas incl. the wrapWithG variants, RefineOmegas) on contexts wired exactly like Psi_A wires them. The logical projection merges dictionary entries with the raw state-key pool, so moving an entry from the pool into a dictionary is not a change. "
            "Registers after a PANIC exit are not judged (U6). Parameters: tiny.")
@@ -235,20 +235,20 @@ check("C21", "internal/accumulation",
 
 
 CODEC_NOTE = ("Values are built by reflection over the repository's own types (harness/internal/zzverif/vgen) with the wire format's fixed lengths (V, C, E, Q, super-majority, bitfield, tickets-or-keys and work-result unions); "
-              "a generated value the encoder itself rejects is counted, not judged. The type list (121 named types of internal/types with both Encode and Decode) was taken from the tree when the harness was written. Tiny parameters; import specs are coded with an empty segment-root dictionary.")
+              "a generated value the encoder itself rejects is counted, not judged. The type list is generated by vcheck from the tree being checked (every named type of internal/types with both Encode(*Encoder) error and Decode(*Decoder) error: 127 at this commit). Tiny parameters; import specs are coded with an empty segment-root dictionary.")
 
 check("C11", "internal/zzverif/codec",
-      rule="case = one random value of one of the 121 serialisable types (sequence sizes 0..3, byte strings 0..300, boundary-biased integers, optional fields present/absent, dictionaries of 0..3 entries): encoded with a fresh encoder and 2-4 times with pooled encoders that just encoded something else (all encodings must be identical, which also exposes map-iteration-order dependence), "
+      rule="case = one random value of one of the serialisable types of the tree (127) (sequence sizes 0..3, byte strings 0..300, boundary-biased integers, optional fields present/absent, dictionaries of 0..3 entries): encoded with a fresh encoder and 2-4 times with pooled encoders that just encoded something else (all encodings must be identical, which also exposes map-iteration-order dependence), "
            "decoded (no error, consumed = length), compared with the original by deep equality modulo nil/empty; plus fuzz-protocol messages of all 7 kinds through MarshalBinary / ReadFrom / MarshalBinary; pool part: 40 rounds of 2..32 goroutines x 300 encodings through types.GetEncoder/PutEncoder, compared (after the encoder went back to the pool) with private-encoder encodings, under the race detector. distinct_nontrivial = distinct encodings longer than one byte + distinct frames",
       technique="round-trip and determinism monitor over reflection-generated values of every serialisable type and fuzz messages; race detector + result comparison on concurrent use of the encoder pool",
       level_text="Identity oracle (decode . encode = id, encode deterministic) on generated values of every codec type; held = no failure on what was explored.",
       note=CODEC_NOTE + " The pool part (race build) has 2..32 goroutines draw encoders from the shared pool, return them at once and compare the bytes they were handed later with encodings made by private encoders.",
-      shards=(8, 16), floors={"any": {"round_trips": 20000, "types_with_round_trips": 115, "round_trips_of_values_with_dictionaries": 1500, "message_round_trips": 1000, "pooled_encodings_under_concurrency": 50000}},
+      shards=(8, 16), floors={"any": {"round_trips": 20000, "types_with_round_trips": 120, "round_trips_of_values_with_dictionaries": 1500, "message_round_trips": 1000, "pooled_encodings_under_concurrency": 50000, "encodings_after_a_failed_encode_on_the_same_encoder": 10000}},
       extra_parts=[{"name": "pool", "pkg": "internal/zzverif/codec", "race": True, "test": "TestVerifC11Pool", "shards": {"quick": 4, "thorough": 8}}],
       assumptions=[STANDIN_VRF])
 
 check("C13", "internal/zzverif/codec",
-      rule="case = one byte string: the encoding of a generated value of one of the 121 types, 6 mutants of it (truncation, bit flip, discriminator byte := {0,1,2,3,7F,80,FE,FF}, hostile or non-minimal natural number inserted/overwritten, garbage suffix, byte deleted, random window, early-position byte) every proper prefix of every 10th encoding, for types containing dictionaries the window mutants (w bytes copied over / swapped with the following w bytes at every early offset), and for every second encoding of at most 96 bytes every byte one up and one down; "
+      rule="case = one byte string: the encoding of a generated value of one of the 127 serialisable types, 6 mutants of it (truncation, bit flip, discriminator byte := {0,1,2,3,7F,80,FE,FF}, hostile or non-minimal natural number inserted/overwritten, garbage suffix, byte deleted, random window, early-position byte) every proper prefix of every 10th encoding, for types containing dictionaries the window mutants (w bytes copied over / swapped with the following w bytes at every early offset), and for every second encoding of at most 96 bytes every byte one up and one down; "
            "whenever the decoder accepts (DecodeWithConsumed = n), the decoded value must re-encode without error to exactly the n consumed bytes. distinct_nontrivial = distinct accepted byte strings",
       technique="accept-implies-canonical monitor (re-encode every accepted mutant) over mutated encodings of every serialisable type",
       level_text="Every accepted mutant of generated encodings is re-encoded and compared with the consumed bytes; held = every accepted string was the canonical encoding of its value on what was explored.",
@@ -257,7 +257,7 @@ check("C13", "internal/zzverif/codec",
       assumptions=[STANDIN_VRF])
 
 check("C14", "internal/zzverif/codec",
-      rule="case = one untrusted byte string (the C13 corpus: valid encodings of the 121 types, 6 mutants each, all prefixes of every 10th) fed to the type's decoder, plus fuzz-protocol frames (valid, mutated, with the 32-bit length prefix set to 0, 1, 2, 2^20, 2^28, 2^31-1, 2^31, 2^32-1 or made consistent with the mutated payload) fed to Message.ReadFrom; "
+      rule="case = one untrusted byte string (the C13 corpus: valid encodings of the 127 serialisable types, 6 mutants each, all prefixes of every 10th) fed to the type's decoder, plus fuzz-protocol frames (valid, mutated, with the 32-bit length prefix set to 0, 1, 2, 2^20, 2^28, 2^31-1, 2^31, 2^32-1 or made consistent with the mutated payload) fed to Message.ReadFrom; "
            "the input is logged to disk before each call; monitors: recover() / process death (child processes under an address-space limit), TotalAlloc delta <= 1 MiB + 4096 x input length. distinct_nontrivial = distinct inputs",
       technique="crash and allocation monitors over mutated encodings and frames in isolated child processes (input logged before every call) + Go native coverage-guided fuzzing of all decoders and the frame reader with the same monitors",
       level_text="Every decode of untrusted bytes is watched for Go panics, process death and allocation beyond a constant multiple of the input; held = none observed on what was explored.",
